@@ -140,12 +140,12 @@ def _machine_shard(arg):
                 self._do({"op": "create", "spec": list(pool[i])})
 
             @precondition(lambda self: len(self.w.live) > 0)
-            @rule(obj=st.integers(0, 5), getter=st.integers(0, 5))
+            @rule(obj=st.integers(0, 5), getter=st.integers(0, 6))
             def getter(self, obj, getter):
                 self._do({"op": "getter", "obj": obj, "getter": getter})
 
             @precondition(lambda self: len(self.w.live) > 0)
-            @rule(obj=st.integers(0, 5), getters=st.lists(st.integers(0, 5), min_size=2, max_size=6))
+            @rule(obj=st.integers(0, 5), getters=st.lists(st.integers(0, 6), min_size=2, max_size=6))
             def getter_burst(self, obj, getters):
                 for gi in getters:  # several getters on one object, any order, repeats likely
                     self._do({"op": "getter", "obj": obj, "getter": gi})
@@ -235,6 +235,10 @@ def run(tier):
             pool += [(alg, int(n)) for n in rng.choice([5, 12, 13, 30, 42, 43, 80, 163], size=3, replace=False)] + [(alg, 3)]
         for alg in ("cube4D", "randomQ"):
             pool += [(alg, int(n)) for n in rng.choice([4, 8, 9, 17, 24, 40], size=3, replace=False)]
+        # grids of different kind but equal size / equal row count (a 4D grid of N rotations has 2N rows): state that is
+        # keyed by a size only would be shared between them
+        n4 = min(n for a, n in pool if a == "cube4D")
+        pool += [("randomQ", n4), ("ico", n4), ("cube3D", 2 * n4), ("randomS", 2 * n4)]
         machines, steps = 96, 25
         prefix_jobs = [("ico", 200, list(range(1, 60)) + [97, 98, 99, 161, 162, 163, 199]),
                        ("cube3D", 200, list(range(1, 60)) + [97, 98, 99, 161, 162, 163, 199]),
